@@ -14,6 +14,11 @@
 (*                      follower = F0 turned by k quarter turns            *)
 (*   symmetry link    : plane through O with (non-unit) normal u:          *)
 (*                      follower = leader with a negated                   *)
+(* A link is used repeatedly by the optimizer (leader assigned, update(),  *)
+(* again and again): the instance carries a second move (k2 further        *)
+(* quarter turns / a second displacement) and a final move back to where   *)
+(* the leader started; the follower depends on where the leader is, not on *)
+(* how it got there (History).                                             *)
 (***************************************************************************)
 EXTENDS Lattice, Json
 
@@ -22,16 +27,18 @@ CoordSets == << {-1, 0, 2}, {-2, -1, 0, 1, 3} >>
 Coord == CoordSets[CoordIdx]
 OriginSeq == << <<0, 0, 0>>, <<4, -3, 7>>, <<-5, 2, 1>> >>
 
-VARIABLES fi, o, L0, F0, k, m, dh, d
-vars == <<fi, o, L0, F0, k, m, dh, d>>
+VARIABLES fi, o, L0, F0, k, m, dh, k2
+vars == <<fi, o, L0, F0, k, m, dh, k2>>
+DSeq == << <<1, 0, 0>>, <<-2, 3, 1>>, <<0, 0, -4>> >>
+d == DSeq[1 + ((k + m + k2) % 3)]         \* translations are independent of the turns: taken round-robin
+d2 == DSeq[1 + ((k + m + k2 + 1) % 3)]
 
 Trip == Coord \X Coord \X Coord
 Init == /\ fi \in FrameIdx /\ o \in { OriginSeq[i] : i \in OriginIdx }
         /\ L0 \in { t \in Trip : t[1] # 0 \/ t[2] # 0 }      \* leader off the axis
         /\ F0 \in { t \in Trip : t[1] # 0 \/ t[2] # 0 }
         /\ L0 # F0
-        /\ k \in 0..3 /\ m \in {1, 2} /\ dh \in {0, 2}
-        /\ d \in { <<1, 0, 0>>, <<-2, 3, 1>>, <<0, 0, -4>> }
+        /\ k \in 0..3 /\ m \in {1, 2} /\ dh \in {0, 2} /\ k2 \in 0..3
 Next == UNCHANGED vars
 Spec == Init /\ [][Next]_vars
 
@@ -47,6 +54,17 @@ LTrans == Add(W(L0), d)
 FTrans == Add(W(F0), d)
 FSym == <<-LRot[1], LRot[2], LRot[3]>>
 
+\* second move: k2 further quarter turns of the moved leader / a second displacement
+LRot2 == Quarter(LRot, k2)
+FRot2 == Quarter(F0, (k + k2) % 4)
+LTrans2 == Add(LTrans, d2)
+FTrans2 == Add(FTrans, d2)
+FSym2 == <<-LRot2[1], LRot2[2], LRot2[3]>>
+\* the follower is a function of the leader's position, not of the moves that led there
+History == /\ Quarter(Quarter(F0, k), k2) = FRot2
+           /\ Quarter(FRot2, (8 - k - k2) % 4) = F0
+           /\ Sub(FTrans2, LTrans2) = Sub(W(F0), W(L0))
+
 \* specification-level sanity: a quarter turn keeps radius and height, four of them are the identity
 QuarterOK == /\ Quarter(F0, 4) = F0
              /\ FRot[1] * FRot[1] + FRot[2] * FRot[2] = F0[1] * F0[1] + F0[2] * F0[2] /\ FRot[3] = F0[3]
@@ -55,7 +73,8 @@ MirrorOK == Dot(Sub(W(FSym), o), F.u) = -Dot(Sub(W(LRot), o), F.u) /\ Sub(W(FSym
 
 Record == [ frame |-> [u |-> F.u, v |-> F.v, w |-> F.w, len |-> F.len], origin |-> o,
             l0 |-> W(L0), f0 |-> W(F0), lrot |-> W(LRot), frot |-> W(FRot), k |-> k,
-            ltrans |-> LTrans, ftrans |-> FTrans, fsym |-> W(FSym),
+            ltrans |-> LTrans, ftrans |-> FTrans, fsym |-> W(FSym), k2 |-> k2,
+            lrot2 |-> W(LRot2), frot2 |-> W(FRot2), ltrans2 |-> LTrans2, ftrans2 |-> FTrans2, fsym2 |-> W(FSym2),
             \* clamp instance: the position L0 and its feet / invariants
             foot_line |-> W(<<L0[1], 0, 0>>), foot_plane |-> W(<<L0[1], L0[2], 0>>),
             radius2 |-> (L0[1] * L0[1] + L0[2] * L0[2]) * F.len * F.len, height |-> L0[3] * F.len * F.len, a |-> L0[1] ]
